@@ -12,7 +12,7 @@ CONSTANTS Keys = {"a", "b"}
           SetAdjs = {"f"}
           Fan = 0
 INIT Init
-NEXT Next
+NEXT NextReg
 INVARIANT WellFormed
 INVARIANT FetchReflectsLast
 INVARIANT FetchReflectsConfig
